@@ -362,8 +362,8 @@ theorem updateStore_accept_iff (s : Store) (hs : StoreInv s) (now : Int) (self :
     rw [key]
     refine ⟨⟨?_, fun h => absurd h.1 hst⟩, fun _ => rfl⟩
     rintro (h | h)
-    · exact absurd h (by decide)
-    · exact absurd h (by decide)
+    · exact absurd h (show ("err:client-not-active" : String) ≠ "updated" by decide)
+    · exact absurd h (show ("err:client-not-active" : String) ≠ "frozen" by decide)
 
 /-- `checkMisbehaviourHeader` passes iff … -/
 theorem checkMisbehaviourHeader_none_iff (cs : ClientState) (c : ConsState) (hdr : Header) (now : Int) (valid : Bool) :
@@ -393,8 +393,8 @@ theorem verifyMisbehaviour_none_iff (cs : ClientState) (s : Store) (m : Misbehav
     | none => simp
     | some c2 =>
       cases h3 : checkMisbehaviourHeader cs c1 m.h1 now v1 with
-      | some e => simp
-      | none => simp
+      | some e => simp [h3]
+      | none => simp [h3]
 
 /-- a misbehaviour submission freezes the client iff … ; in every other case nothing is written -/
 theorem misbehaviourStore_frozen_iff (s : Store) (now : Int) (m : Misbehaviour) (v1 v2 : Bool) :
@@ -422,13 +422,13 @@ theorem misbehaviourStore_frozen_iff (s : Store) (now : Int) (m : Misbehaviour) 
           · have key : misbehaviourStore s now m v1 v2 = (s, "updated") := by
               unfold misbehaviourStore; simp [hb, hst, hc, hv, hm]
             rw [key]
-            refine ⟨⟨fun h => absurd h (by decide), ?_⟩, fun _ => rfl⟩
+            refine ⟨⟨fun h => absurd h (show ("updated" : String) ≠ "frozen" by decide), ?_⟩, fun _ => rfl⟩
             rintro ⟨_, _, _, _, _, h⟩; exact absurd h hm
     · have key : misbehaviourStore s now m v1 v2 = (s, "err:client-not-active") := by unfold misbehaviourStore; simp [hb, hst]
       rw [key]
-      exact ⟨⟨fun h => absurd h (by decide), fun h => absurd h.2.1 hst⟩, fun _ => rfl⟩
+      exact ⟨⟨fun h => absurd h (show ("err:client-not-active" : String) ≠ "frozen" by decide), fun h => absurd h.2.1 hst⟩, fun _ => rfl⟩
   · have key : misbehaviourStore s now m v1 v2 = (s, "err:basic") := by unfold misbehaviourStore; simp [hb]
     rw [key]
-    exact ⟨⟨fun h => absurd h (by decide), fun h => absurd h.1 hb⟩, fun _ => rfl⟩
+    exact ⟨⟨fun h => absurd h (show ("err:basic" : String) ≠ "frozen" by decide), fun h => absurd h.1 hb⟩, fun _ => rfl⟩
 
 end IbcVerif.Tm
